@@ -261,6 +261,13 @@ var c12EAP = probe.Define("C12", "eap", genEAPImage, func(in bytesIn) probe.Outc
 
 func TestC12(t *testing.T) {
 	c := probe.NewCtx(t, "C12")
+	runIDSweep(c, func(m model.Message) bool {
+		w, err := ref.EncodeMessage(m, nil)
+		if err != nil {
+			return true
+		}
+		return c12Message.Eval(c, bytesIn{W: w, Origin: "canonical"})
+	})
 	c12Message.Run(c, t, c.N(8000, 80000))
 	c12EAP.Run(c, t, c.N(6000, 60000))
 }
